@@ -1,11 +1,13 @@
 #![allow(unused)]
 
 use crate::sps::syntax::*;
-use std::collections::HashMap;
+use std::collections::BTreeMap;
 use zydeco_statics::surface_syntax::ScopedArena;
 use zydeco_syntax::{BuiltinValueRole, FloatOperation, IntegerOperation};
 
-pub type BuiltinMap = HashMap<String, Builtin>;
+/// Keyed by host name and iterated by the Stack IR printers and the assembly lowering
+/// (extern declarations): the order must not depend on a per-process hash seed.
+pub type BuiltinMap = BTreeMap<String, Builtin>;
 
 #[derive(Clone, Debug, thiserror::Error)]
 pub enum BuiltinPackageLowerError {
